@@ -21,7 +21,7 @@ RING_BUFFER_ITER_API(ring32, uint32_t)
 RING_BUFFER(ring32, uint32_t)
 RING_BUFFER_ITER(ring32, uint32_t)
 
-#define MAXCAP 7
+#define MAXCAP 8
 
 enum { OP_PUT_A, OP_PUT_B, OP_GET, OP_CLEAR, OP_OVR_ON, OP_OVR_OFF, NOPS };
 static const char *OPN[NOPS] = { "put(A)", "put(B)", "get", "clear", "override(on)", "override(off)" };
@@ -211,14 +211,20 @@ int
 main(int argc, char **argv)
 {
     mc_init(argc, argv);
-    const size_t maxcap = mc_thorough() ? 7 : 4;
+    const size_t maxcap = mc_thorough() ? 8 : 5;
     for (size_t cap = 1; cap <= maxcap; ++cap) {
-        explore_octet_ring(cap);
-        explore_ring16(cap);
-        explore_ring32(cap);
+        /* one partition per (capacity, element type): independent searches */
+        if (mc_partition((int)(3 * (maxcap - cap) + 0), (int64_t)(3 * cap + 0)))
+            explore_octet_ring(cap);
+        if (mc_partition((int)(3 * (maxcap - cap) + 1), (int64_t)(3 * cap + 1)))
+            explore_ring16(cap);
+        if (mc_partition((int)(3 * (maxcap - cap) + 2), (int64_t)(3 * cap + 2)))
+            explore_ring32(cap);
     }
-    if (mc.only < 0 && !(saw_wrap && saw_evict && saw_drop))
-        mc_broken("vacuous: wrap=%d evict=%d drop=%d", saw_wrap, saw_evict, saw_drop);
+    mc_partition(-1, 99);
+    /* vacuity is guarded by the orchestrator's required outcome classes
+     * (put-evicts, put-dropped, get-empty, get-oldest, clear): the searches are
+     * spread over the shards, so no single process sees all of them */
     char bound[160];
     snprintf(bound, sizeof bound, "capacities 1..%zu x element types u8/u16/u32 x two element values, all operations, observers and both iterators in every state, to fixpoint", maxcap);
     mc_finish(true, bound);
